@@ -90,7 +90,7 @@ type c09Rules struct {
 	feeOK, minOK, maxOK, soonOK, farOK, bwOK, gapOK, gapMaxOK bool
 }
 
-func c09Ref(x c09In) c09Rules { return c09RefX(x, false) }
+func c09Ref(x c09In) c09Rules { return c09RefX(x, true) }
 
 // c09RefExact computes the inbound fee as rate*(a/1e6) + trunc(rate*(a%1e6)/1e6),
 // which equals trunc(rate*a/1e6) in the integers (both summands have the sign
@@ -176,10 +176,7 @@ func c09Inputs(inboundAny bool) c09In {
 	vAssume(x.pol.BaseFee <= 0xffffffff)                 // base fee is a uint32 on the wire
 	vAssume(x.pol.FeeRate <= 1_000_000)                  // proportional rate up to 100 %
 	vAssume(x.height < 1<<31 && x.rejectDelta < 1<<31 && x.maxCltv < 1<<31) // block heights / configured deltas
-	if !inboundAny {
-		// the domain on which CalcFee's multiplication cannot wrap
-		vAssume(x.inb.Rate <= 4_000_000 && x.inb.Rate >= -4_000_000)
-	}
+	_ = inboundAny // inbound base and rate: any int32 (the code clamps the rate to +-1e7 ppm)
 	return x
 }
 
@@ -263,8 +260,7 @@ func c09Check(x c09In, err *LinkError) {
 	}
 }
 
-// VerifC09Forward: the whole forwarding decision on the domain where the
-// inbound rate is within +-400 %.
+// VerifC09Forward: the whole forwarding decision, inbound fee any int32 base/rate.
 func VerifC09Forward() {
 	c09Config()
 	x := c09Inputs(false)
